@@ -755,6 +755,9 @@ def translate_parser(ev, repo, notes):
     return T if ok else None
 
 # ----------------------------------------------------------------------------- lib.rs / Cargo.toml / statics
+EXPECTED_DEPS = {'num-complex': '{version="0.4",optional=true}',
+                 'rust_decimal': '{version="1.35",default-features=false,features=["maths"],optional=true}'}
+
 def translate_features(repo, notes):
     cargo = open(os.path.join(repo, 'Cargo.toml')).read()
     lib = read_rs(os.path.join(repo, 'src', 'lib.rs'))
@@ -765,6 +768,18 @@ def translate_features(repo, notes):
         mm = re.fullmatch(r'(\w+)\s*=\s*\[(.*)\]', ln)
         if mm:
             feats[mm.group(1)] = [x.strip().strip('"') for x in mm.group(2).split(',') if x.strip()]
+    # the external numeric libraries are oracles of the model: their identity (crate, version requirement, feature set) is
+    # part of the trusted base, so a changed dependency specification is a changed tie (rust_decimal's `legacy-ops`
+    # feature, for instance, swaps the algorithms behind checked_add / rem / div)
+    m = re.search(r'\[dependencies\]\n(.*?)(\n\[|\Z)', cargo, re.S)
+    deps = {}
+    for ln in (m.group(1) if m else '').split('\n'):
+        ln = ln.split('#')[0].strip()
+        mm = re.fullmatch(r'([\w-]+)\s*=\s*(.+)', ln)
+        if mm:
+            deps[mm.group(1)] = re.sub(r'\s+', '', mm.group(2))
+    if deps != EXPECTED_DEPS:
+        notes.append('unrecognised Cargo.toml [dependencies]: %r (recorded: %r)' % (deps, EXPECTED_DEPS))
     items = []   # (kind, name, cfg-features(list, any), )
     pend = None
     lines = lib.split('\n')
